@@ -23,7 +23,12 @@
 //     carries.  Together with the LoopBody target of the same loop this regenerates all three parts
 //     of a function with one loop: what the carried variables start from, one iteration, and what
 //     is computed from their final values; the obligation file instantiates loop_fn with the
-//     iteration of the regenerated step.
+//     iteration of the regenerated step;
+//   - module LeafParams at the end of Leaf_gen.v: for every translated definition f the list of its
+//     parameter names, `LeafParams.f : list string`.  Parameters are positional in Gallina, so a
+//     lemma that instantiates `f (v_itv v) now sum` cannot see that the Go code now reads another
+//     field of the same type in that position (m.bucketLengthInMs for m.intervalInMs); an obligation
+//     file pins the names with `LeafParams.f = [...]` (reflexivity).
 package main
 
 import (
@@ -258,4 +263,22 @@ func fnCoqType(t string) string {
 	}
 	ct := strings.Join(cs, " * ")
 	return "(" + ct + " -> " + ct + ")"
+}
+
+// paramsModule: parameter names of every translated definition
+func paramsModule(infos []outFn) string {
+	var b strings.Builder
+	b.WriteString("Require Coq.Strings.String.\nModule LeafParams.\nImport Coq.Strings.String.\nLocal Open Scope string_scope.\nLocal Open Scope list_scope.\n")
+	for _, f := range infos {
+		if f.Error != "" {
+			continue
+		}
+		b.WriteString("Definition " + f.Name + " : list string := ")
+		for _, p := range f.Params {
+			b.WriteString("\"" + p[0] + "\" :: ")
+		}
+		b.WriteString("nil.\n")
+	}
+	b.WriteString("End LeafParams.\n")
+	return b.String()
 }
